@@ -503,9 +503,30 @@ def keyword_named(ctx, r):
     return out
 
 
+def plural_siblings(ctx, r):
+    """an array member and the sibling member whose name is its singular, both with INLINE object types of different
+    shapes: the item type and the sibling's type want one generated name; each must keep its own members"""
+    out = []
+    a = [{"n": "code", "s": {"k": "str"}, "req": True, "d": None}, {"n": "memo", "s": {"k": "int", "f": None}, "req": False, "d": None}]
+    b = [{"n": "active", "s": {"k": "bool"}, "req": False, "d": None}, {"n": "rank", "s": {"k": "int", "f": "int32"}, "req": True, "d": None}, {"n": "title", "s": {"k": "str"}, "req": False, "d": None}]
+    for plural, single in (("categories", "category"), ("policies", "policy"), ("entries", "entry"), ("lines", "line"), ("boxes", "box")):
+        for first, second in ((a, b), (b, a)):
+            for req in (False, True):
+                ps = sorted([{"n": plural, "s": {"k": "arr", "s": {"k": "obj", "props": copy.deepcopy(first), "addl": "absent"}}, "req": req, "d": None},
+                             {"n": single, "s": {"k": "obj", "props": copy.deepcopy(second), "addl": "absent"}, "req": req, "d": None}], key=lambda p: p["n"].encode())
+                out.append({"k": "obj", "props": ps, "addl": "absent"})
+    return out
+
+
 def cases(ctx):
     r = ctx.rng
     out = []
+    for s in plural_siblings(ctx, r):
+        try:
+            spec_of(s)
+        except ValueError:
+            continue
+        out.append(mk(s, gen_docs(s, r, 3, 5)))
     lay = layered(ctx, r)
     for s in (r.sample(lay, 60) if ctx.quick else lay):
         out.append(mk(s, gen_docs(s, r, 3, 5)))
@@ -657,7 +678,7 @@ def run(ctx):
             "numbers are identified with canonical decimals (generated decimals have <= 6 significant digits; 1 and 1.0 are one value)",
             "syn-based expansion of the emitted types (harness/src/k_codec.rs); type NAMES are dropped (C09/C13)"],
         rule="E: bounded-exhaustive one-member objects {string, boolean, number x {none,float}, integer x 9 formats, 4 enums, 2 inline/$ref objects} x 9 wrappers (plain, nullable, array, map, nested) x {required, optional, default} x additionalProperties {absent, false, integer, string} "
-             "+ field-name collision families + the same objects written as allOf hierarchies (bounded-exhaustive two-layer shapes x all layer-name orders; random 1-3 layer layouts on 30% of the random trees) + pairs of inline objects that differ only by members named like schema keywords + random schema trees of depth <= 3 (inline / hoisted into components at random); each with valid instances from an independent generator and single-mutation near-misses "
+             "+ field-name collision families + the same objects written as allOf hierarchies (bounded-exhaustive two-layer shapes x all layer-name orders; random 1-3 layer layouts on 30% of the random trees) + pairs of inline objects that differ only by members named like schema keywords + an array member next to the sibling named like its singular, both with inline object types + random schema trees of depth <= 3 (inline / hoisted into components at random); each with valid instances from an independent generator and single-mutation near-misses "
              "(missing required, wrong JSON type, undeclared enum value, unknown member, positional array); A (thorough): 600 of those compiled and executed; distinct by input hash, non-trivial = any case",
         assumptions=["the root schema is an object named T; non-object schemas are tested as its required member `v`",
                      "default --enum-mode merge, no discriminators/unions (C13/C14/C15); allOf only as a hierarchy of plain objects (members spread over 1-3 named layers, flat or chained, layer names on both sides of the root in name order), no string formats with serde_with codecs (date, date-time, uuid, byte), no `additionalProperties: true`",
